@@ -44,13 +44,15 @@ PROPS = {
         design_ref='DESIGN.md section 4 / C07',
         bounded=[('plonky2', ['c07_'])],
         bounded_thorough=[('plonky2@avx2', ['c07_'])],
-        vspecs=['contracts/C07/arithmetic_base.vspec', 'contracts/C07/constant.vspec', 'contracts/C07/exponentiation.vspec', 'contracts/C07/filtered_circuit.vspec', 'contracts/C02/gate_constraints.vspec'],
+        vspecs=['contracts/C07/arithmetic_base.vspec', 'contracts/C07/constant.vspec', 'contracts/C07/exponentiation.vspec', 'contracts/C07/filtered_circuit.vspec', 'contracts/C07/gate_constraints_circuit.vspec', 'contracts/C02/gate_constraints.vspec'],
         level_text='Unbounded deductive proof (Verus/Z3), for ArithmeticGate, ConstantGate and ExponentiationGate in every parameterisation (symbolic num_ops / num_consts / num_power_bits) over an '
                    'abstract commutative ring, that the extension-field, packed/base and in-circuit evaluators all return ONE ring-generic specification '
                    'expression per constraint, exactly num_constraints() of them, with all wire indexing in bounds; plus the pinning lemma (constraint zero '
                    '<==> output wire equals the computed value; for ExponentiationGate the n+1-th constraint output - mid[n-1] and the square-and-multiply chain, most significant bit first). The other gates, the filtered in-circuit evaluator and the generators are covered by a bounded stand-in '
                    'only (labelled bounded); Gate::eval_filtered and Gate::eval_filtered_circuit (filter plumbing: selector column, `num_selectors > 1`, removal of both constant prefixes, '
-                   'accumulation filter*c + acc) are proved against ONE uninterpreted filter function (units gate_constraints, filtered_circuit).',
+                   'accumulation filter*c + acc) are proved against ONE uninterpreted filter function (units gate_constraints, filtered_circuit), and both whole-circuit combiners, evaluate_gate_constraints and '
+                   'evaluate_gate_constraints_circuit, return in slot j the sum over EVERY gate type of its filtered j-th constraint, each gate with its own selector column, group and the same prefix sizes '
+                   '(num_selectors, num_lookup_selectors) (units gate_constraints, gate_constraints_circuit).',
         level_note='Trusted: Verus+Z3; abstract ring for scalar/extension/packed fields (T6); CircuitBuilder arithmetic contracts (T10d). Other gates '
                    '(BaseSum, Exponentiation, RandomAccess, Reducing*, MulExtension, ArithmeticExtension, Poseidon*, CosetInterpolation, Lookup*) and '
                    'compute_filter / compute_filter_circuit (iterator products): bounded harness only (c07_gates: 23 gate instances incl. odd bases 3/5/7 x {standard, 37-routed-wire} configuration: extension vs '
@@ -62,12 +64,14 @@ PROPS = {
         title='STARK proofs are accepted exactly for traces that satisfy the constraints',
         design_ref='DESIGN.md section 4 / C09',
         bounded=[('starky', ['c09_', 'c04_'])],
-        vspecs=['contracts/C09/constraint_consumer.vspec', 'contracts/C09/stark_degree.vspec', 'contracts/C09/lagrange_ends.vspec'],
+        vspecs=['contracts/C09/constraint_consumer.vspec', 'contracts/C09/stark_degree.vspec', 'contracts/C09/lagrange_ends.vspec', 'contracts/C18/stark_shape.vspec'],
         level_text='Unbounded deductive proof (Verus/Z3) that ConstraintConsumer accumulates acc_i*alpha_i + c*filter with filter = 1, z_last, L_first, L_last for '
                    'constraint / constraint_transition / constraint_first_row / constraint_last_row respectively (a swapped or missing filter fails the '
                    'postcondition); Stark::quotient_degree_factor is 0 for degree 0, 1 for degrees 1 and 2 and degree-1 above (a STARK with constraints always gets '
                    'a quotient wide enough for its declared degree) and num_quotient_polys is that times num_challenges; eval_l_0_and_l_last returns '
-                   '(x^n - 1)/(n(x - 1)) and (x^n - 1)/(n(gx - 1)), the filters of the first-row and last-row constraints. The STARK verifier/prover themselves '
+                   '(x^n - 1)/(n(x - 1)) and (x^n - 1)/(n(gx - 1)), the filters of the first-row and last-row constraints; validate_proof_shape returns Ok only for proofs whose '
+                   'quotient commitment AND quotient openings are present exactly when the STARK has quotient polynomials, in the declared number (the conditions whose absence were F8/F9), with '
+                   'trace/next openings of COLUMNS values and PUBLIC_INPUTS public inputs. The rest of the STARK verifier and the prover '
                    '(iterator pipelines) are covered by a bounded stand-in only.',
         level_note='Trusted: Verus+Z3; abstract ring for packed fields; lane-wise scalar multiplication uninterpreted. verify_stark_proof_with_challenges, '
                    'compute_quotient_polys, eval_vanishing_poly, get_challenges: bounded harness only (flat_map/chunks/Option plumbing outside the Verus subset): '
@@ -82,13 +86,13 @@ PROPS = {
         title='Transforms and polynomial algebra agree with their definitions',
         design_ref='DESIGN.md section 4 / C15',
         bounded=[('field', ['c15_']), ('util', ['c15_']), ('field@avx2', ['c15_']), ('field@avx512', ['c15_'])],
-        vspecs=['contracts/C15/util_log2.vspec', 'contracts/C15/poly_len.vspec'],
+        vspecs=['contracts/C15/util_log2.vspec', 'contracts/C15/util_logs.vspec', 'contracts/C15/poly_len.vspec'],
         level_text='Unbounded deductive proof (Verus/Z3) of log2_strict (result r with n == 2^r for every power of two; its internal assertion and its unchecked '
-                   '`assume` are discharged) and of PolynomialCoeffs::pad / trim_to_len (padding never drops a coefficient; trimming succeeds exactly when only zero '
+                   '`assume` are discharged), of bits_u64 (2^(r-1) <= n < 2^r), log2_ceil (the least r with n <= 2^r) and log_floor (the largest r with base^r <= n, for every n > 0 and base > 1), and of PolynomialCoeffs::pad / trim_to_len (padding never drops a coefficient; trimming succeeds exactly when only zero '
                    'coefficients are cut off). FFT == direct evaluation, inverse/coset variants, zero-tail and root-table options, multiplication, division, '
                    'interpolation, bit reversal and transposes are covered by a bounded stand-in only (roots-of-unity developments are days of proof '
                    'engineering; see DESIGN.md).',
-        level_note='Trusted: Verus+Z3; usize::trailing_zeros std semantics. Everything except log2_strict is BOUNDED evidence (sizes 1..256, random and boundary '
+        level_note='Trusted: Verus+Z3; usize::trailing_zeros / leading_zeros std semantics. Everything except the log helpers and pad / trim_to_len is BOUNDED evidence (sizes 1..256, random and boundary '
                    'operands, naive DFT / schoolbook oracles; fft and ifft with every zero-tail factor and with root tables; scalar, AVX2 and AVX-512 builds of the same harness (packed butterflies); coset vanishing polynomial, first Lagrange polynomial, disjoint coset shifts, value-form LDE helpers), never '
                    'counted as proof; it found F6 (div_rem) and F7 (inv_mod_xn), both fixed.',
         remainder=['fft / ifft / coset variants / lde', 'polynomial mul / div_rem / divide_by_linear / interpolate', 'reverse_index_bits*, transpose_* (unsafe code)'],
@@ -193,21 +197,22 @@ PROPS = {
         title='Verifiers and proof decoders fail cleanly on malformed input',
         design_ref='DESIGN.md section 4 / C18',
         bounded=[('plonky2', ['c03_c18_', 'c18_']), ('starky', ['c18_'])],
-        vspecs=['contracts/C18/fri_shape.vspec', 'contracts/C05/fri_verifier.vspec', 'contracts/C03/plonk_verifier.vspec', 'contracts/C12/merkle_verify.vspec', 'contracts/C15/util_log2.vspec'],
+        vspecs=['contracts/C18/fri_shape.vspec', 'contracts/C18/stark_shape.vspec', 'contracts/C05/fri_verifier.vspec', 'contracts/C03/plonk_verifier.vspec', 'contracts/C12/merkle_verify.vspec', 'contracts/C15/util_log2.vspec'],
         level_text='Unbounded deductive proof (Verus/Z3) that, with NO precondition on the proof value beyond its Rust type, FRI shape validation and the '
                    'FRI verifier reach no failing index, slice, subtraction, shift, unwrap or assertion: every such operation in the extracted '
-                   'bodies is a discharged obligation, and shape validation is the only place allowed to establish length facts.',
+                   'bodies is a discharged obligation, and shape validation is the only place allowed to establish length facts. The same for the STARK entry: validate_proof_shape / '
+                   'check_lookup_options / recover_degree_bits (starky) read the first Merkle path, subtract rate_bits and shift by cap_height only after establishing that this is safe (F3), for every proof value.',
         level_note='Trusted: Verus+Z3; parameters from the common data satisfy params_ok/instances_ok; unverified callees (T10) assumed panic-free under '
-                   'their stated preconditions. Byte decoders, compressed proofs and the STARK entry point are covered by the bounded stand-in only '
+                   'their stated preconditions. Byte decoders, compressed proofs and the STARK verifier after shape validation are covered by the bounded stand-in only '
                    '(c18_c17_decoders: truncations / bit flips / 0xff runs of encoded proofs and circuit data; c18_compressed_malformed: open finding F5; '
                    'c18_stark_malformed: 38 surgeries x 3 trace sizes; c03_c18_surgery_*: every proof component altered, truncated, extended under 3 configurations).',
-        remainder=['verify_compressed / decompress (HashMap keyed by proof data)', 'byte decoders (util/serialization)', 'starky verifier'],
+        remainder=['verify_compressed / decompress (HashMap keyed by proof data)', 'byte decoders (util/serialization)', 'starky verifier after validate_proof_shape (get_challenges, verify_stark_proof_with_challenges: bounded harness only)'],
     ),
     'C02': dict(
         title='No accepted proof exists for an assignment that violates the circuit',
         design_ref='DESIGN.md section 4 / C02',
         bounded=[('plonky2', ['c02_'])],
-        vspecs=['contracts/C02/gate_constraints.vspec', 'contracts/C02/forest.vspec', 'contracts/C02/partial_products.vspec', 'contracts/C15/poly_len.vspec', 'contracts/C03/plonk_verifier.vspec', 'contracts/C08/lookup_selectors.vspec'],
+        vspecs=['contracts/C02/gate_constraints.vspec', 'contracts/C02/partition_witness.vspec', 'contracts/C07/gate_constraints_circuit.vspec', 'contracts/C07/filtered_circuit.vspec', 'contracts/C02/forest.vspec', 'contracts/C02/partial_products.vspec', 'contracts/C15/poly_len.vspec', 'contracts/C03/plonk_verifier.vspec', 'contracts/C08/lookup_selectors.vspec'],
         level_text='Unbounded deductive proof (Verus/Z3) of three of the mechanisms the property names: (i) evaluate_gate_constraints returns, in every '
                    'slot j, the sum over EVERY gate type of the circuit of that gate\'s j-th filtered constraint, each taken with its own selector column '
                    'and group range (no gate skipped, nothing overwritten), and Gate::eval_filtered multiplies the gate\'s own evaluator (run on the '
@@ -218,7 +223,9 @@ PROPS = {
                    'EXACTLY the two classes named and no other, compress_paths leaves every parent pointer equal to its representative (what wire_partition '
                    'assumes), all for arbitrary forests with termination proved; Target::index is the row-major grid index; (v) partial_products_and_z_gx '
                    'returns Z(x) times the running chunk products (last entry = Z(gx)) and num_partial_products = ceil(n/max_degree) - 1; trim_to_len (the quotient '
-                   'truncation in the prover) fails unless only zero coefficients are cut. '
+                   'truncation in the prover) fails unless only zero coefficients are cut; (vi) PartitionWitness keeps ONE value per copy class: set_target_returning_rep writes the slot of the class representative, '
+                   'refuses a second, different value for the class and changes nothing else (frame over all other classes and the partition), try_get_target reads that slot, so every target of a class reads the same value; '
+                   '(vii) the in-circuit combiner evaluate_gate_constraints_circuit mirrors (i) (shared with C07). '
                    'The soundness argument over these mechanisms, the permutation argument and the adversarial-prover half are covered by a bounded '
                    'stand-in only.',
         level_note='Trusted: Verus+Z3; Gate::eval_unfiltered and compute_filter as uninterpreted functions (T10); dyn-Gate dispatch to the default '
@@ -228,7 +235,7 @@ PROPS = {
                    'prover strategies are exercised through the guarded hooks (cargo feature verif_hooks, MANIFEST.hooks): all-zero permutation polynomials, a quotient '
                    'perturbed for one challenge, lenient quotient truncation, each on copy-constraint-only violations; also a 37-routed-wire configuration and conflicting assignments.',
         remainder=['PLONK soundness (Schwartz-Zippel) over the checked identities', 'permutation argument: wire_partition / get_sigma_map / get_sigma_polys (HashMap code; bounded harness only)',
-                   'eval_vanishing_poly: L_0 term, check_partial_products (tuple_windows / zip_eq; bounded harness only)', 'PartitionWitness::set_target_returning_rep (mutable reference into a Vec element; bounded harness only)',
+                   'eval_vanishing_poly: L_0 term, check_partial_products (tuple_windows / zip_eq; bounded harness only)', 
                    'adversarial prover strategies beyond the three hooked ones (all-zero Z, per-challenge quotient alteration, lenient truncation): not exercised'],
     ),
     'C08': dict(
